@@ -10,4 +10,7 @@ CHECKS = {
  "C26": dict(level="model_checking", technique="TLA+ spec (Graphs) + TLC: all digraphs on <=4 vertices enumerated by TLC, run through the real code, every recorded result validated by a TLC trace spec",
    text="Bounded-exhaustive: every digraph with 1..4 vertices (66,066 graphs) plus seeded random graphs up to 8 vertices is run through graph.Tarjan, Matrix.Closure/Graph, Transpose and LongestPath; TLC checks each record against the declarative definitions (SCC partition, callee-first order, reachability, reversed edges, nil iff cyclic, maximum path length).",
    note="Trusts TLC and the recording harness; adjacency order is increasing in the exhaustive part and shuffled (with duplicates) in the random part."),
+ "C27": dict(level="model_checking", technique="TLA+ spec (Diff: LCS recurrence, hunk application) + TLC: all small text pairs enumerated by TLC, diffed by the real code, each output validated by a TLC trace spec",
+   text="Bounded-exhaustive: every pair of texts with 1..4 lines over a 3-line alphabet (14,400 pairs) plus seeded random edited copies up to 60 lines is diffed by diff.LineDiff; TLC checks on each parsed output: empty iff equal, number of +/- lines equals m+n-2*LCS (LCS by the textbook recurrence), header sizes match the hunk body, and applying the hunks to the first text (checking old- and new-side coordinates) yields the second.",
+   note="Trusts TLC, and the harness's small parser of the unified format; abbreviated blocks (> 14 lines) are checked by counts only."),
 }
